@@ -154,3 +154,81 @@ class _X02(BridgeProp):
 X01 = _X01()
 X02 = _X02()
 X03 = _X03()
+
+
+class _X04(ClientProp):
+    id = "X04"
+    beyond = True
+    title = "scripts/control_device.py: a command line means one client class, one operation and its arguments"
+    rule = ("every action of the script except control_thermostat x option values over their boundary grids (timers, names in "
+            "several scripts, hours/minutes incl. rejected ones, slots, clock strings and day names, positions) x login key "
+            "given or defaulted x device replies incl. end of stream; the script runs as __main__ under runpy on the virtual "
+            "network. distinct = distinct events; non-trivial = frames and process ends")
+
+    def mc_runs(self, ctx):
+        return []
+
+    def execute(self, scn):
+        from ..clidrive import run_scenario
+        return run_scenario(scn)
+
+    def scenarios(self, ctx: Ctx):
+        from .client import state1, thermo
+        rng = ctx.rng
+        out = []
+        names = ["Boiler", "My Switcher Boiler", "a", "x" * 32, "x" * 33, "שלום עולם", "דוד שמש במרפסת של הבית הישן", "Café 漢字", "n" * 31 + "é"]
+        daynames = ["Monday", "Tuesday", "Wednesday", "Thursday", "Friday", "Saturday", "Sunday"]
+        zone = "Asia/Jerusalem"
+        now = local_instant(zone, 2026, 9, 28, 12, 30)
+
+        def add(action, o, argv, reply, eof_at=None):
+            dev = "%06x" % rng.randrange(1 << 24)
+            ip = rng.choice(["192.168.1.33", "10.0.0.7", "111.222.11.22"])
+            o = dict(o, dev=list(bytes.fromhex(dev)), ip=list(ip.encode()))
+            full = [action, "-d", dev, "-i", ip]
+            if rng.random() < 0.6:
+                key = "%02x" % rng.randrange(256)
+                full += ["-l", key]
+                o["key"] = list(bytes.fromhex(key))
+            if rng.random() < 0.3:
+                full.append("-v")
+            replies = [login(rng, 44), reply]
+            if eof_at is not None:
+                replies = replies[:eof_at] + [{"t": "eof"}]
+            out.append({"action": action, "o": o, "argv": full + argv, "replies": replies, "ip": ip, "zone": zone,
+                        "t0": float(now) + rng.choice(SECOND_OFFSETS)})
+
+        for rep in range(ctx.pick(2, 12)):
+            for eof_at in (None, None, 0, 1):
+                add("get_state", {}, [], state1(rng), eof_at)
+                add("get_thermostat_state", {}, [], thermo(rng), eof_at)
+                add("turn_off", {}, [], ack(rng), eof_at)
+                add("stop_shutter", {}, [], ack(rng), eof_at)
+                add("get_schedules", {}, [], {"t": "sched", "seed": rng.randrange(1 << 30), "recs": []}, eof_at)
+            for t in [None, 0, 1, 15, 30, 90, 1439, 1440, 100000]:
+                add("turn_on", {"timer": t or 0}, [] if t is None else ["-t", str(t)], ack(rng))
+            for nm in names:
+                add("set_name", {"name": [ord(c) for c in nm]}, ["-n", nm], ack(rng))
+            for h, m in [(1, None), (1, 0), (2, 30), (23, 59), (0, 59), (0, 60), (24, 0), (1, 1), (12, 45), (0, 0)]:
+                add("set_auto_shutdown", {"hours": h, "minutes": m or 0}, ["-r", str(h)] + ([] if m is None else ["-m", str(m)]), ack(rng))
+            for slot in range(8):
+                add("delete_schedule", {"slot": slot}, ["-s", str(slot)], ack(rng))
+            for pos in [0, 1, 50, 99, 100]:
+                add("set_shutter_position", {"pos": pos}, ["-p", str(pos)], ack(rng))
+            for _ in range(ctx.pick(8, 60)):
+                st = "%02d:%02d" % (rng.randrange(24), rng.randrange(60))
+                en = "%02d:%02d" % (rng.randrange(24), rng.randrange(60))
+                days = sorted(rng.sample(range(7), rng.choice([0, 0, 1, 2, 3, 7])))
+                argv = ["-n", st, "-f", en] + (["-w"] + [daynames[d] for d in days] if days else [])
+                add("create_schedule", {"start": list(st.encode()), "end": list(en.encode()), "days": days}, argv, ack(rng))
+            add("create_schedule", {"start": list(b"25:00"), "end": list(b"07:00"), "days": []}, ["-n", "25:00", "-f", "07:00"], ack(rng))
+        return out
+
+    def owns(self, clause):
+        return not clause.startswith("harness:")
+
+    def nontrivial(self, ev):
+        return ev["ev"] in ("Write", "Ret")
+
+
+X04 = _X04()
